@@ -20,7 +20,7 @@ ASSUMPTIONS = ['schedules: every interleaving of 2 callers + transmit + receive 
 REQUIRED_TAGS = ['race/preempted', 'race/reply', 'race/released', 'race/timeout']
 LIMITS = {'quick': {'max_paths': 60000, 'max_s': 240}, 'thorough': {'max_paths': 600000, 'max_s': 1200}}
 
-MIXES = {'same': [('read', 'm:a', None), ('read', 'm:a', None)], 'distinct': [('read', 'm:a', None), ('read', 'm:b', None)],
+MIXES = {'single': [('read', 'm:a', None)], 'same': [('read', 'm:a', None), ('read', 'm:a', None)], 'distinct': [('read', 'm:a', None), ('read', 'm:b', None)],
          'rw': [('change', 'm:a', 1.5), ('read', 'm:a', None)]}
 PEERS = ['normal', 'error0', 'update', 'silent0', 'drop']
 CLOSERS = ['after', 'race']
@@ -38,6 +38,9 @@ def cases(tier):
     for mix in ('distinct', 'same'):
         out.append({'fn': 'run_race', 'id': f'race/{mix}/normal/fresh-connect', 'params': {'mix': mix, 'peer': 'normal', 'closer': 'after',
                                                                                        'preempt': pre, 'fresh': True}})
+    # the peer goes away in the middle of the connect handshake (after the identification, instead of the description)
+    out.append({'fn': 'run_race', 'id': 'race/single/drop-in-handshake/close-after',
+                'params': {'mix': 'single', 'peer': 'drop-in-handshake', 'closer': 'after', 'preempt': pre, 'fresh': True}})
     return out
 
 
@@ -97,6 +100,9 @@ def _run_race(env, p, cosched, fc):
                 raise BrokenPipeError('connection lost')
             self.sent.append(line)
             action, ident, data = decode_msg(line.strip())
+            if action == 'describe' and p['peer'] == 'drop-in-handshake':
+                self.closed = True
+                return
             if action == 'describe':
                 acc = {k: {'description': k, 'datainfo': {'type': 'double'}, 'readonly': False} for k in ('a', 'b')}
                 self.lines.append(encode_msg_frame('describing', '.', {'equipment_id': 'eq', 'description': 'd', 'modules': {
@@ -211,7 +217,8 @@ def _run_race(env, p, cosched, fc):
     env.check(len(outcome) == len(reqs), K + '/caller-without-outcome', sorted(outcome))
     quiet = p['closer'] == 'after'
     if p.get('fresh'):
-        env.check(len(connections) == 1, K + '/more-than-one-connection-opened-for-one-client', len(connections))
+        if p['peer'] != 'drop-in-handshake':     # (every caller of a client whose connection was lost connects again)
+            env.check(len(connections) == 1, K + '/more-than-one-connection-opened-for-one-client', len(connections))
         io = connections[0] if connections else PeerIO()
     replies = []
     for i, o in sorted(outcome.items()):
@@ -236,7 +243,7 @@ def _run_race(env, p, cosched, fc):
                 env.check(p['peer'] in ('silent0', 'drop'), K + '/caller-timed-out-although-peer-answered', [i, rq, o, [x for x in io.sent]])
         else:
             env.note('race/released')
-            env.check(not quiet or p['peer'] == 'drop', K + '/connection-error-without-connection-loss', [i, o])
+            env.check(not quiet or p['peer'] in ('drop', 'drop-in-handshake'), K + '/connection-error-without-connection-loss', [i, o])
             # released promptly: not by the 10 s time-out
             env.check(waited < 10.0, K + '/waiting-caller-not-released-promptly', [i, waited])
     # no reply is handed to two callers
